@@ -343,6 +343,7 @@ def gen_case(sub, routines, scn_id, connected=False, nmax=12, invalid_frac=0.0):
     routine = rnd.choice(routines)
     directed = routine in DIR
     expect_reject = None
+    tiny = False
     params = {}
     wkind = 'bin' if routine == 'randomizer_bin_und' else None
     if routine == 'randomizer_bin_und':
@@ -388,10 +389,14 @@ def gen_case(sub, routines, scn_id, connected=False, nmax=12, invalid_frac=0.0):
             ii, jj = np.nonzero(np.triu(W, 1))
             if len(ii):
                 x = rnd.randrange(len(ii))
-                if rnd.random() < 0.5:
+                y = rnd.random()
+                if y < 0.4:
                     W[ii[x], jj[x]] = 0
-                else:
+                elif y < 0.8:
                     W[ii[x], jj[x]] += 1.5
+                else:
+                    W[ii[x], jj[x]] *= (1 + 1e-9)  # an asymmetry far below any tolerance-based symmetry test
+                    tiny = True
                 expect_reject = 'asymmetric'
     if routine in LAT:
         params['itr'] = rnd.choice((0, 1, 1, 2, 3, 5))
@@ -418,6 +423,9 @@ def gen_case(sub, routines, scn_id, connected=False, nmax=12, invalid_frac=0.0):
         params['B'] = enc(B)
     elif routine != 'randomizer_bin_und':
         params['itr'] = rnd.choice((0, 1, 1, 2, 3, 5, 0.5))
+    if meta.get('wkind') == 'float' and routine != 'randomizer_bin_und' and rnd.random() < 0.12:
+        W = W * rnd.choice((1e-9, 1e-6, 1e6))  # units: weights are moved, never computed, so every fact stays exact
+        meta['scaled'] = True
     r = rnd.random()
     if r < 0.12 and meta.get('wkind') in ('bin', 'int'):
         W = W.astype(np.int64)
@@ -435,7 +443,7 @@ def gen_case(sub, routines, scn_id, connected=False, nmax=12, invalid_frac=0.0):
             D8 = np.maximum(D8, D8.T)
         params['D'] = enc(D8.astype(np.int8))
         meta['narrow8'] = True
-    if expect_reject == 'asymmetric' and np.allclose(W, W.T):
+    if expect_reject == 'asymmetric' and (np.array_equal(W, W.T) if tiny else np.allclose(W, W.T)):
         expect_reject = None  # the container type rounded the asymmetry away
     if expect_reject == 'disconnected' and G.connected_und(W):
         expect_reject = None
